@@ -372,7 +372,9 @@ static void handoff(int me, int target)
   while (sem_wait(&g_slots[me].go) != 0 && errno == EINTR) {}
   }
 
-extern "C" int hsim_in_call() { return tl_in_call && g_fine.active; }
+// blocking primitives are simulated for the whole of every simulated call (also in single-call segments, where
+// nothing can contend), so that their state stays consistent across the segments of one execution
+extern "C" int hsim_in_call() { return tl_in_call ? 1 : 0; }
 
 // called (through sim/tsan_shim.cc) before every instrumented memory access of library code
 extern "C" void hsim_yield(const void * addr, int /*is_write*/)
@@ -395,6 +397,7 @@ extern "C" void hsim_yield(const void * addr, int /*is_write*/)
 extern "C" void hsim_wait_until(int (*pred)(void *), void * arg)
   {
   int me = tl_client;
+  if (!g_fine.active) { if (pred(arg)) return; _exit(5); }    // alone in the library and still blocked: self-deadlock
   for (int spins = 0; !pred(arg); ++spins)
     {
     int target = pick_runnable(me, false);
@@ -548,7 +551,7 @@ static Outcome run_schedule(const Schedule & sc, bool scripted, uint64_t sched_s
   close(pf[1]);
   Outcome o; o.res.assign(sc.items.size(), Res{255, 0, 0}); o.complete = false;
   uint64_t hdr[3] = {0, 0, 0};
-  const int limit_ms = 20000;
+  const int limit_ms = 10000;
   if (read_all(pf[0], o.res.data(), o.res.size() * sizeof(Res), limit_ms) && read_all(pf[0], hdr, sizeof hdr, limit_ms))
     {
     o.trace.resize(hdr[0]);
@@ -829,7 +832,7 @@ static int do_scan_serial(uint64_t seed0, uint64_t count, const char * hashfile,
         break;
         }
       }
-    if (st.findings >= max_findings) break;
+    if (st.findings >= max_findings || g_hung >= 3) break;
     }
   if (hf) fclose(hf);
   print_stats(st, "serial", seed0);
@@ -881,7 +884,7 @@ static int do_scan_fine(uint64_t seed0, uint64_t count, const char * hashfile, u
           }
         }
       }
-    if (st.findings >= max_findings) break;
+    if (st.findings >= max_findings || g_hung >= 3) break;
     }
   if (hf) fclose(hf);
   print_stats(st, "fine", seed0);
